@@ -92,6 +92,11 @@ def run(regs: Dict[str, int], mem: List[List[int]], n: int = 1, default: int = 0
         for i, v in enumerate(hidden.get("temps", [])):
             emu.regs.set(getattr(RegisterName, f"TEMP{i}"), v)
         emu.regs.call_sub_level = len(hidden.get("call_pages", []))
+        if hidden.get("flagwise"):
+            # the same flags once more, written one by one through the FC / FZ aliases
+            f = emu.regs.get(RegisterName.F)
+            emu.regs.set(RegisterName.FC, f & 1)
+            emu.regs.set(RegisterName.FZ, (f >> 1) & 1)
     steps = []
     for _ in range(n):
         s = step(emu, sm)
